@@ -83,6 +83,9 @@ static bool
 alg_wrap_unw(const jose_hook_alg_t *alg, jose_cfg_t *cfg, const json_t *jwe,
              const json_t *rcp, const json_t *jwk, json_t *cek)
 {
+    if (!no_encrypted_key(rcp))
+        return false;
+
     return copy(cek, jwk);
 }
 
